@@ -285,6 +285,10 @@ pub fn pcore(_tier: Tier) -> Vec<ProgCase> {
     v.push(pc("in20_out16", "begin drop drop drop drop end", &s20, &[]));
     v.push(pc("in16_out20", "begin push.1 push.2 push.3 push.4 end", &s16, &[]));
     v.push(pc("call_deep", "proc.f add end begin call.f end", &s20, &[]));
+    // memory accessed in more than one context, at different addresses (rising and falling across the
+    // context switch), with callee locals, word operations, nested calls
+    v.push(pc("memctx_addr_falls", "proc.f mem_load.1 drop push.9 mem_store.0 end begin push.7 mem_store.1000 mem_load.4294967295 drop call.f end", &[], &[]));
+    v.push(pc("memctx_words_locals", "proc.g.2 loc_load.1 drop push.4 loc_store.0 end proc.f padw mem_loadw.5 dropw push.1.2.3.4 mem_storew.6 dropw call.g end begin push.5.6.7.8 mem_storew.3 dropw call.f padw mem_loadw.3 dropw end", &[], &[]));
 
     // ---- trace-shape regimes: the deciding component at and around 2^6 and 2^7 -------------------------
     for target in (60..=66).chain(124..=130) {
